@@ -146,7 +146,27 @@ def subtraction_rule(ctx, R):
                       'is removed from the region' % [repr(a)[:60] for a in alts], c.ln)
         ok_, ochain, _r = elem_key(F, fb, b, other)
         n += 1
-        ctx.check(ok_ is not None and ok_ not in own_keys and other.has_call('from'), R, b,
+        is_poly = other.has_call('from')
+        if not is_poly and ochain is not None:
+            # polygons prepared once: the subtrahend is an element of a vector that is the order-preserving image
+            # `boxes.iter().map(|b| polygon of b).collect()` of the input slice
+            from lib import subst_upvars as _su
+            och = _su(F, b, ochain)
+            for y in och.walk():
+                if y.kind == 'call' and y.name.rsplit('::', 1)[-1] == 'map' and hasattr(y.extra, 'args') and \
+                        y.args and y.args[0].has_place(root=('param', 1)):
+                    for hb_ in [fb] + all_closures(F, fb):
+                        if y.extra in hb_.calls().values():
+                            for mcb in closure_args_of_call(F, hb_, y.extra):
+                                r_ = ExprBuilder(mcb).place(0, ())
+                                # ... and that image is the polygon CONVERSION of the box on every path (a cached /
+                                # conditional polygon is not: the cache may belong to an older geometry)
+                                pure = all(y_.kind in ('place', 'cast') or (y_.kind == 'call' and y_.name.rsplit('::', 1)[-1] in (
+                                    'from', 'into', 'deref', 'clone', 'borrow', 'as_ref')) for y_ in r_.walk())
+                                if pure and r_.has_call('from') and all(p_.root == ('param', 2) for p_ in r_.places()):
+                                    is_poly = True
+                                    ochain = och
+        ctx.check(ok_ is not None and ok_ not in own_keys and is_poly, R, b,
                   'subtrahend=other-box', 'subtrahend from %s' % ok_,
                   'the polygon that is subtracted (%r) is not the polygon of ANOTHER box of the set (the own box '
                   'comes from %s)' % (other, sorted(map(str, own_keys))), c.ln)
